@@ -65,13 +65,15 @@ def fresh_block_num(bundle):
     return num
 
 
-def ref_add_bib(bundle, target_nums, kid, alg, scope, addl_protected=b'', src=None, sec_flags=0, sec_crc=0):
+def ref_add_bib(bundle, target_nums, kid, alg, scope, addl_protected=b'', src=None, sec_flags=0, sec_crc=0, addl_unprotected=b''):
     ''' Reference security source: append a BIB (COSE_Mac0 per target) in front of the payload block. '''
     bundle = copy.deepcopy(bundle)
     src = src or bundle['primary']['src']
     params = [[5, dict(scope)]]
     if addl_protected:
         params.append([3, addl_protected])
+    if addl_unprotected:
+        params.append([4, addl_unprotected])
     sec_blk = dict(type=11, num=fresh_block_num(bundle), flags=sec_flags, crc_type=sec_crc, data='')
     asb = {'targets': list(target_nums), 'ctx': 3, 'flags': 1, 'src': src, 'params': params, 'results': []}
     for num in target_nums:
@@ -84,13 +86,15 @@ def ref_add_bib(bundle, target_nums, kid, alg, scope, addl_protected=b'', src=No
     return bundle
 
 
-def ref_add_bcb(bundle, target_nums, kid, alg, scope, ivs, addl_protected=b'', src=None):
+def ref_add_bcb(bundle, target_nums, kid, alg, scope, ivs, addl_protected=b'', src=None, addl_unprotected=b''):
     ''' Reference security source: encrypt the targets (COSE_Encrypt0) and append the BCB. '''
     bundle = copy.deepcopy(bundle)
     src = src or bundle['primary']['src']
     params = [[5, dict(scope)]]
     if addl_protected:
         params.append([3, addl_protected])
+    if addl_unprotected:
+        params.append([4, addl_unprotected])
     sec_blk = dict(type=12, num=fresh_block_num(bundle), flags=1, crc_type=0, data='')
     asb = {'targets': list(target_nums), 'ctx': 3, 'flags': 1, 'src': src, 'params': params, 'results': []}
     for num, iv in zip(target_nums, ivs):
